@@ -50,6 +50,10 @@ impl Interface for Scripted {
         match method.as_str() {
             "Echo" => call.reply_struct(Reply::parameters(Some(json!({"v": p["v"]})))),
             "Who" => call.reply_struct(Reply::parameters(Some(json!({"who": self.name})))),
+            "Sleep" => {
+                std::thread::sleep(std::time::Duration::from_millis(p["ms"].as_u64().unwrap_or(0)));
+                call.reply_struct(Reply::parameters(Some(json!({"slept": p["ms"]}))))
+            }
             "Count" => call.reply_struct(Reply::parameters(Some(json!({"n": self.oneways.load(Ordering::SeqCst)})))),
             "Reply" => call.reply_struct(Reply::parameters(obj(p.get("v")))),
             "Stream" | "FailMid" | "CloseMid" => {
